@@ -266,6 +266,7 @@ D4 = lambda: odict_reordered([('a', Pair(1, 2)), ('b', [EqAll()]), ('o', {'k': E
 O1 = lambda: Obj(a=1, b=[2], o={'x': 1}, v=0)                                                       # noqa: E731
 O2 = lambda: FalsyObj(a=Slotted(1, 2), b=(), o={}, v=1.0)                                           # noqa: E731
 LL = lambda: [[1], [], [2, 3]]        # noqa: E731
+LL2 = lambda: [[1], [2], [3, 4], [5, 6], [7]]    # noqa: E731
 LLG = lambda: OneShot([[1], FList([5]), ()])     # noqa: E731
 LT = lambda: [(1,), (), FTuple((2, 3))]    # noqa: E731
 LD = lambda: [{'a': 1}, {}, {'b': 2, 'a': 3}]    # noqa: E731
@@ -283,6 +284,7 @@ def _entries(h, hf, hp, hfalse, hmk, lit):
     """name -> (spec factory result, target factories, options).  h: Hook spec, hf: identity
     callable, hp: callable answering True, hfalse: callable answering False"""
     E = collections.OrderedDict()
+    hf_len = lambda x: (hf(x), len(x))[1]     # noqa: E731  (a key function that runs the user code)
 
     def add(name, spec, targets, **opt):
         E[name] = (spec, targets, opt)
@@ -316,6 +318,10 @@ def _entries(h, hf, hp, hfalse, hmk, lit):
     add('fill-auto', Fill([Auto((h, 'a')), {Auto('v')}]), [D1, D2, O1])
     add('auto', Auto((h, 'b', [T])), DICTS)
     add('inspect', Inspect((h, 'a'), echo=False), DICTS)
+    # one class, two kinds of instances: data (no glomit) in a Fill, a spec (instance glomit) elsewhere
+    add('instance-data', Fill({'tag': InstSpec(), 'k': Spec((h, 'a'))}), DICTS)
+    add('instance-spec', (h, 'a', InstSpec(_inst_handler)), DICTS)
+    add('instance-data-2', (h, Fill([InstSpec()])), [D1, D2])
     # -- streaming
     it = lambda: Iter((h, T))     # noqa: E731
     add('iter-map', it().map(hf).all(), LISTS)
@@ -352,6 +358,9 @@ def _entries(h, hf, hp, hfalse, hmk, lit):
     add('group-count', Group(Count()), LISTS)
     add('group-flatten', Group(Flatten()), [LL, LLG, L0])
     add('group-merge', Group(Merge()), [LD, LDS, L0])
+    add('group-keyed-flatten', Group({len: Flatten()}), [LL2, LL, L0])      # list values, two members per group
+    add('group-keyed-sumlist', Group({len: Sum(init=list)}), [LL2, LL, L0])
+    add('group-keyed-fold', Group({hf_len: Fold(T, init=list)}), [LL2, L0])
     add('group-limit', Group(Limit(2, [h])), LISTS)
     add('group-limit0', Group(Limit(0)), LISTS)
     add('group-stop-dict', Group({Val(glom.STOP): [T]}), LISTS)
@@ -395,6 +404,22 @@ def _entries(h, hf, hp, hfalse, hmk, lit):
 
 NOT_IN_ZOO = {'Sample': 'random by design: its outcome is not a function of target and spec',
               'Inspect(echo=True / breakpoint / post_mortem)': 'writes to stdout / starts pdb'}
+
+
+class InstSpec:
+    """a class whose instances are specs only when they were GIVEN a glomit (an instance
+    attribute): one instance is plain data, another one of the same class is a spec"""
+
+    def __init__(self, handler=None):
+        if handler is not None:
+            self.glomit = handler
+
+    def __repr__(self):
+        return 'InstSpec(%s)' % ('handler' if 'glomit' in self.__dict__ else '')
+
+
+def _inst_handler(target, scope):
+    return ('handled', target)
 
 
 class HookFactory:
@@ -622,6 +647,9 @@ def run_c06(check, tier, seed, matcher):
     plans = []
     for n, k in entries:                                   # each object alone: every target, twice
         plans.append([(n, ti) for ti in range(k)] * 2)
+    order = [(n, ti) for n, k in entries for ti in (0, k - 1)]
+    plans.append(order)                                      # all objects in one interpreter, in definition order ...
+    plans.append(order[::-1])                                # ... and in reverse
     for _ in range({'quick': 8, 'thorough': 200}[tier]):     # all objects mixed in one interpreter
         plan = [(n, rng.randrange(k)) for n, k in entries for _ in range(2)]
         rng.shuffle(plan)
@@ -632,7 +660,7 @@ def run_c06(check, tier, seed, matcher):
         for plan, recs in part:
             for i, ((n, ti), got) in enumerate(zip(plan, recs)):
                 ncalls += 1
-                if got != table[(n, ti)]:
+                if got != table[(n, ti)] or got['frame']:      # (the frame condition is absolute, not relative)
                     nbad += 1
                     _report(check, matcher, 'sequential', dict(entry=n, target=ti, position=i, plan=plan[:i + 1][-12:]), got, table[(n, ti)])
     check.cov['evaluations'] += ncalls
@@ -681,10 +709,10 @@ def run_c20(check, tier, seed, matcher):
                 ninside += 1
                 check.cov['distinct_nontrivial'] += 1
             bad = False
-            if outer != table[(n, ti)]:
+            if outer != table[(n, ti)] or outer['frame']:
                 bad = True
                 _report(check, matcher, mode + ' (outer)', dict(entry=n, outer_target=ti, inner_target=tj), outer, table[(n, ti)])
-            if inner is not None and inner != table[(n, tj)]:
+            if inner is not None and (inner != table[(n, tj)] or inner['frame']):
                 bad = True
                 _report(check, matcher, mode + ' (inner)', dict(entry=n, outer_target=ti, inner_target=tj), inner, table[(n, tj)])
             check.validated(0 if bad else 1)
@@ -698,7 +726,7 @@ def run_c20(check, tier, seed, matcher):
             bad = False
             for n, ti, got in recs:
                 nfc += 1
-                if got != table[(n, ti)]:
+                if got != table[(n, ti)] or got['frame']:
                     bad = True
                     _report(check, matcher, 'free-running threads', dict(entry=n, target=ti, session_seed=s), got, table[(n, ti)])
             check.validated(0 if bad else 1)
